@@ -142,6 +142,11 @@ def check(run):
                         "will": {"t": ["w", "big"], "p": "bigwill-bad", "q": 0, "r": False, "size": 65000}})
         ops.append({"op": "quiesce"})
         bscns.append({"nodes": [1], "auth": [x["table"][j] for j in x["order"]], "ops": ops})
+    # admission must not depend on how the network cuts the CONNECT into segments, nor on what other sessions do meanwhile
+    nseg0 = len(bscns)
+    bscns += brokerlib.segmented(auth=[{"u": "alice", "p": "pw1", "m": ""}, {"u": "bob", "p": "pw2", "m": "tenantB"}, {"u": "carol", "p": "", "m": ""}],
+                                 cuts=(1, 2, 3) if not thorough else (1, 2, 3, 4, 5, 8, 13))
+    run.log("broker level: %d credential scenarios, %d with segmented packets" % (nseg0, len(bscns) - nseg0))
     btpath, crashes = brokerlib.execute(run, bscns, "c16b", shards=12)
     if crashes:
         raise vlib.Inconclusive("broker driver died: %s" % crashes[0][2][-2000:])
